@@ -4,6 +4,7 @@ package main
 import (
 	"verif/checks/c02"
 	"verif/checks/c03"
+	"verif/checks/c12"
 	"verif/engine/ev"
 )
 
@@ -11,5 +12,6 @@ func main() {
 	ev.Main(map[string]*ev.Check{
 		"C02": c02.Check,
 		"C03": c03.Check,
+		"C12": c12.Check,
 	})
 }
